@@ -36,11 +36,11 @@ def main():
     rc1, out1 = sh(f"timeout 300 /venv/bin/python {demo} 2>&1 | tail -3", wt, env)
     rc1 = sh(f"timeout 300 /venv/bin/python {demo} >/dev/null 2>&1; echo $?", wt, env)[1].strip()
     res["demo_with_change"] = {"exit": rc1, "tail": out1.strip()[-400:]}
-    sh("git diff -- src > /tmp/_seeded_patch.diff && git checkout -- src", wt)
+    sh("git diff -- src > .seeded_patch.diff && git checkout -- src", wt)  # per worktree: evaluations may run concurrently
     rc2 = sh(f"timeout 300 /venv/bin/python {demo} >/dev/null 2>&1; echo $?", wt, env)[1].strip()
     out2 = sh(f"timeout 300 /venv/bin/python {demo} 2>&1 | tail -2", wt, env)[1]
     res["demo_without_change"] = {"exit": rc2, "tail": out2.strip()[-300:]}
-    sh("git apply /tmp/_seeded_patch.diff", wt)
+    sh("git apply .seeded_patch.diff && rm -f .seeded_patch.diff", wt)
     res["checks"] = {}
     os.makedirs("/tmp/seeded_ev", exist_ok=True)
     for c in checks:
